@@ -147,7 +147,13 @@ func (f *lockFacade) Create(ctx context.Context, r kvs.Record) (string, error) {
 	f.s.mu.Lock()
 	ver, err := f.s.backing.Create(ctx, r)
 	if p != nil && err == nil {
-		p.acquired = fault == "none"
+		p.acquired = fault == "none" || fault == "midcancel"
+	}
+	if fault == "midcancel" && p != nil && p.cancel != nil {
+		// the caller's context ends while the request is in the store: past the store's own look at the context, before
+		// the reply is back with the caller
+		f.s.ev(map[string]any{"e": "cancel", "p": p.id, "acq": p.acquired})
+		p.cancel()
 	}
 	f.s.mu.Unlock()
 	if fault == "replylost" {
@@ -360,7 +366,10 @@ func (s *lockSys) cmdGrant(pid int, call, fault string) bool {
 		return false
 	}
 	p.gate = nil
-	if fault != "none" {
+	if fault == "midcancel" {
+		// not a storage fault: the request is served, the caller's context ends while it is (see lockFacade.Create)
+		s.ev(map[string]any{"e": "info", "what": "grant", "p": pid, "call": g.op})
+	} else if fault != "none" {
 		s.faults++
 		s.ev(map[string]any{"e": "fault", "p": pid, "call": g.op, "kind": fault})
 	} else {
